@@ -43,9 +43,9 @@ Proof.
   intros Hx Hdt Ht E.
   assert (Hty : ekey_type x = dt).
   { destruct (encode_ekey_head x) as [r' Hr']. rewrite Hr' in E. unfold table_prefix in E. now injection E. }
-  destruct (wf_type_cases x Hx) as [[Tx Mx]|[Tx Mx]]; [|congruence].
-  rewrite (encode_ekey_table x Mx Hx), Hty in E.
-  assert (Nx : no_sep (ekey_table x)) by (destruct x; cbn in Hx |- *; tauto).
+  assert (Tx : is_table_type (ekey_type x) = true) by congruence.
+  rewrite (encode_ekey_table x Tx Hx), Hty in E.
+  assert (Nx : no_sep (ekey_table x)) by (destruct x; cbn in Hx |- *; try tauto; vm_compute in Tx; discriminate).
   apply table_prefix_app_inj in E; tauto.
 Qed.
 
@@ -61,8 +61,8 @@ Proof.
   - intros [r Hr]. change (q ++ table_start_sep :: r) with (q ++ [table_start_sep] ++ r) in Hr.
     rewrite app_assoc, <- Hs in Hr. unfold encode_data_table_start in Hr.
     apply encode_with_table_prefix in Hr; tauto.
-  - intros [Hty Htab]. destruct (wf_type_cases x Hx) as [[Tx Mx]|[Tx Mx]]; [|congruence].
-    rewrite (encode_ekey_table x Mx Hx), Hty, Htab. fold (encode_data_table_start dt t). rewrite Hs.
+  - intros [Hty Htab]. assert (Tx : is_table_type (ekey_type x) = true) by congruence.
+    rewrite (encode_ekey_table x Tx Hx), Hty, Htab. fold (encode_data_table_start dt t). rewrite Hs.
     exists (ekey_rest x). now rewrite <- app_assoc.
 Qed.
 
